@@ -180,7 +180,9 @@ for _fs in FEATURE_SETS:
 EDITS = ['set_thickness', 'set_radius', 'set_conic', 'set_index', 'set_asphere_coeff', 'scale_system', 'image_solve', 'solve',
          'pickup_thickness', 'variable_thickness', 'variable_tilt',
          # constraints that do not hold (any more) when the lens is saved: the saved prescription is what was set last
-         'pickup_then_override', 'pickup_then_scale', 'solve_then_override', 'solve_then_scale']
+         'pickup_then_override', 'pickup_then_scale', 'solve_then_override', 'solve_then_scale',
+         # a Fresnel coating whose stored media are not (any more) the media of its surface: the saved coating is what is reloaded
+         'fresnel_then_set_index', 'fresnel_with_chosen_media']
 
 
 def _after_edit_contract(edit):
@@ -220,6 +222,14 @@ def _after_edit_contract(edit):
         elif edit == 'solve_then_scale':
             lens.solves.add('marginal_ray_height', 4, 0.3)
             lens.scale_system(v)
+        elif edit == 'fresnel_then_set_index':
+            lens.set_polarization(c.mod('optiland.rays.polarization_state').create_polarization('V'))
+            lens.surface_group.set_fresnel_coatings()
+            lens.set_index(v, 1)
+        elif edit == 'fresnel_with_chosen_media':
+            lens.set_polarization(c.mod('optiland.rays.polarization_state').create_polarization('V'))
+            mats_ = c.mod('optiland.materials')
+            lens.surface_group.surfaces[2].coating = c.mod('optiland.coatings').FresnelCoating(mats_.IdealMaterial(n=v, k=0.0), mats_.IdealMaterial(n=1.0, k=0.0))
         elif edit == 'variable_thickness':
             c.mod('optiland.optimization.variable.variable').Variable(lens, 'thickness', surface_number=2).update(v / 10)
         elif edit == 'variable_tilt':
@@ -235,6 +245,7 @@ def _after_edit_contract(edit):
                 c.ensure('C19.serialisable.json_dump_succeeds_after_edit', False, note=str(ex))
         lens2 = c.mod('optiland.optic').Optic.from_dict(d)
         compare(c, 'C19.roundtrip.same_prescription_after_edit', lens, lens2)
+        c.ensure('C19.roundtrip.dictionary_form_is_reproduced_after_edit', dict_equal(lens2.to_dict(), d))
         if c.mode == 'num':
             # behaviour, not only attributes: the edited lens and its reloaded copy trace identically (intensities included --
             # what a physical aperture clips after the edit is what the reloaded aperture clips)
@@ -243,6 +254,8 @@ def _after_edit_contract(edit):
                 r2 = lens2.trace_generic(0.0, Hy, Px, Py, 0.55)
                 # (a reloaded pickup / solve is re-applied at load: vertex positions may differ in the last place, hence 1e-12)
                 same = all(_np.allclose(getattr(r1, a), getattr(r2, a), rtol=1e-12, atol=1e-12, equal_nan=True) for a in ('x', 'y', 'z', 'L', 'M', 'N', 'opd', 'i'))
+                if hasattr(r1, 'p') or hasattr(r2, 'p'):        # polarization tracking: the accumulated polarization matrices as well
+                    same = same and hasattr(r1, 'p') and hasattr(r2, 'p') and bool(_np.allclose(r1.p, r2.p, rtol=1e-12, atol=1e-12, equal_nan=True))
                 c.ensure('C19.roundtrip.identical_traces_after_edit', same)
     return ae
 
